@@ -261,7 +261,7 @@ func (r *Run) execute() int {
 			r.canaryUnknown++
 		}
 	}
-	r.scanProblems = w.checkEstablishedBy()
+	r.scanProblems = append(w.checkEstablishedBy(), w.checkMemoFields()...)
 	return r.report()
 }
 
